@@ -2,7 +2,8 @@
 # selftest.sh [name-pattern] : replay the stored seeded changes and harmless rewrites against the checks.
 #   - every seeded/<id>/patch.diff is applied to a scratch worktree of /repo (created under ${TMPDIR:-/tmp}, removed at the end)
 #     and the first check of its meta.json "caught_by" list must raise a VIOLATION;
-#   - every seeded/refactorings/<set> is applied as a whole and no check may raise one.
+#   - every seeded/refactorings/<set> is applied as a whole and no check may raise one;
+#   - every seeded/hook-breaking/<set> (behaviour kept, tagged build broken) must make every check report no-failing-input-found.
 # Not registered in MANIFEST.json (it needs a scratch directory); it is the regression harness for the checks themselves.
 PAT=${1:-.}
 cd /verif
@@ -29,6 +30,22 @@ for d in seeded/refactorings/*/; do
     if VERIF_REPO=$WT ./check C$i --tier quick 2>/dev/null | grep -q '^VIOLATION'; then bad=$((bad+1)); echo "FALSE ALARM  refactorings/$n by C$i"; fi
   done
   echo "quiet   refactorings/$n"
+  git -C $WT checkout -q -- .
+done
+fi
+# rewrites that keep the program's behaviour but break the build of the hooks (build tag verif): every check must fall back to the
+# untagged binary and end in "no-failing-input-found" (the tie is broken, the property is not shown to fail)
+if echo hook-breaking | grep -Eq "$PAT"; then
+for d in seeded/hook-breaking/*/; do
+  n=$(basename $d)
+  for f in $d/r*.diff; do git -C $WT apply $PWD/$f 2>/dev/null || echo "SKIP $f"; done
+  for i in 01 02 03 04 05 06 07 08 09 10 11 12 13 14 15 16 17 18; do
+    out=$(VERIF_REPO=$WT ./check C$i --tier quick 2>/dev/null | grep -E '^VIOLATION|^INFRA')
+    if echo "$out" | grep -q '^INFRA'; then bad=$((bad+1)); echo "INFRA  hook-breaking/$n C$i"; fi
+    if echo "$out" | grep '^VIOLATION' | grep -qv 'no-failing-input-found$'; then bad=$((bad+1)); echo "FALSE INPUT  hook-breaking/$n by C$i"; fi
+    if ! echo "$out" | grep -q 'no-failing-input-found$'; then bad=$((bad+1)); echo "SILENT  hook-breaking/$n C$i"; fi
+  done
+  echo "done    hook-breaking/$n"
   git -C $WT checkout -q -- .
 done
 fi
